@@ -209,6 +209,7 @@ class Driver(object):
                                     numStages=lambda: self.nstages)
         control.WaitOnStability = lambda *a, **k: True
         self.slow_pm = False         # offer split post-mortems (PMB/PME) among the enabled events
+        self.sleepy = False          # offer Controller.sleep() / wake_up() among the enabled events
         self.inflight = {}           # c -> (thread, gate): post-mortems parked inside the stability wait
         self._parked = threading.Event()
 
@@ -404,6 +405,8 @@ class Driver(object):
                     ev.append(('PMB', c))
         for c in self.finq:
             ev.append(('Fin', c))
+        if self.sleepy and not self.inflight:
+            ev.insert(0, ('Wake',) if self.ctl._start_sleeping else ('Sleep',))
         return ev
 
     def do(self, ev):
@@ -420,6 +423,11 @@ class Driver(object):
             self.end_pm(ev[1])
         elif k == 'Fin':
             self.deliver_fin(ev[1])
+        elif k == 'Sleep':
+            self.ctl.sleep()
+        elif k == 'Wake':
+            self.ctl.wake_up()
+            self._scan()
         else:
             raise ValueError(ev)
 
